@@ -124,8 +124,12 @@ fn run_case<'a>(ctx: &'a Ctx, case: u64, acc: &'a mut Acc) -> CaseFut<'a> {
         sc.tick(10);
         // a reference between existing persons
         sc.apply(&Op::AddParent { peer: 0, row: 0, parent: 2 }).await;
+        // the rows reach most peers before the deletion, not necessarily all of them: a peer may learn the deletion of a
+        // row it never held
         for p in 1..n_peers {
-            sc.apply(&Op::Pull { dst: p, src: 0, cut: None }).await;
+            if p == 1 || rng.gen_bool(0.75) {
+                sc.apply(&Op::Pull { dst: p, src: 0, cut: None }).await;
+            }
         }
         // some peer updates the row before the deletion (possibly another day)
         let updater = rng.gen_range(0..n_peers);
@@ -146,7 +150,7 @@ fn run_case<'a>(ctx: &'a Ctx, case: u64, acc: &'a mut Acc) -> CaseFut<'a> {
             sc.tick(if placement == 2 { 7 } else { DAY });
         }
         // the deletion: node or reference, by a random peer
-        let deleter = rng.gen_range(0..n_peers);
+        let deleter = if rng.gen_bool(0.5) { rng.gen_range(0..2.min(n_peers)) } else { rng.gen_range(0..n_peers) };
         let del_ref = rng.gen_bool(0.35);
         let del = if del_ref {
             Op::DeleteRef { peer: deleter, row: 0, parent: 2 }
@@ -163,6 +167,15 @@ fn run_case<'a>(ctx: &'a Ctx, case: u64, acc: &'a mut Acc) -> CaseFut<'a> {
         let mut stale_pull_seen = false;
         let mut violated = false;
         let mut steps = 0;
+        // deletions a peer has applied: its own, and every record held by a peer it has pulled from since (a complete pull
+        // delivers them), whether or not it kept a record itself
+        let mut applied: Vec<std::collections::BTreeSet<(crate::snapshot::NodeKeyId, i64)>> = vec![Default::default(); n_peers];
+        {
+            let ds = sc.peers[deleter].snapshot().await;
+            for d in ds.node_del.values() {
+                applied[deleter].insert((d.id, d.mdate));
+            }
+        }
         for (dst, src) in &order {
             sc.tick(rng.gen_range(1..2000));
             // did dst already apply the deletion while src still shows the row?
@@ -175,8 +188,40 @@ fn run_case<'a>(ctx: &'a Ctx, case: u64, acc: &'a mut Acc) -> CaseFut<'a> {
             if dst_has_tomb && !src_has_tomb {
                 stale_pull_seen = true;
             }
-            sc.apply(&Op::Pull { dst: *dst, src: *src, cut: None }).await;
+            // what the source holds before the pull is what a complete pull delivers
+            let src_records: Vec<(crate::snapshot::NodeKeyId, i64)> = ss.node_del.values().filter(|d| d.room_id == sc.room.id).map(|d| (d.id, d.mdate)).collect();
+            let src_applied: Vec<(crate::snapshot::NodeKeyId, i64)> = src_records;
+            let out = sc.apply(&Op::Pull { dst: *dst, src: *src, cut: None }).await;
+            let complete = match &out {
+                OpOutcome::Pulled(stats) => stats.iter().all(|s| s.error.is_none()),
+                _ => false,
+            };
+            if complete {
+                for r in src_applied {
+                    applied[*dst].insert(r);
+                }
+            }
             steps += 1;
+            // a deletion that the peer has applied stays applied, record or not
+            for (pi, p) in sc.peers.iter().enumerate() {
+                let s = p.snapshot().await;
+                for (id, deleted_version) in &applied[pi] {
+                    if let Some(n) = s.nodes.values().find(|n| &n.id == id && n.mdate <= *deleted_version && n.room_id == Some(sc.room.id)) {
+                        acc.violation(
+                            "C11/resurrected/node/deletion-applied-without-a-record-kept",
+                            json!({"peers": n_peers, "peer": pi, "row": b64(id), "deleted_version": deleted_version, "visible_version": n.mdate, "record_on_the_peer": s.node_del.values().any(|d| &d.id == id), "history": sc.log}),
+                        );
+                        violated = true;
+                        break;
+                    }
+                }
+                if violated {
+                    break;
+                }
+            }
+            if violated {
+                break;
+            }
             for (pi, p) in sc.peers.iter().enumerate() {
                 let s = p.snapshot().await;
                 acc.count("tombstone_checks", (s.node_del.len() + s.edge_del.len()) as u64);
